@@ -41,7 +41,7 @@ type readR struct {
 	Ms     float64 `json:"ms"`
 }
 
-var opKinds = []string{"write", "strong", "lin", "join-voter", "join-nonvoter", "remove", "stepdown", "barrier", "snapshot", "noop", "install-lead"}
+var opKinds = []string{"write", "strong", "lin", "join-voter", "join-nonvoter", "remove", "stepdown", "barrier", "snapshot", "snapshot-trunc1", "snapshot-trunc2", "noop", "install-lead"}
 
 func genOps(c *vf.Ctx, caseNo int) []string {
 	r := c.Rand(uint64(caseNo))
@@ -57,11 +57,24 @@ func genOps(c *vf.Ctx, caseNo int) []string {
 		k := opKinds[r.IntN(len(opKinds))]
 		ops = append(ops, k)
 	}
+	// every third history ends with a directed motif: a read that pins the term,
+	// entries that never reach the FSM, then a log-truncating snapshot
+	motifs := [][]string{
+		{"lin", "barrier", "snapshot-trunc1"},
+		{"lin", "join-voter", "barrier", "snapshot-trunc2"},
+		{"strong", "barrier", "barrier", "snapshot-trunc2"},
+		{"lin", "join-nonvoter", "barrier", "barrier", "snapshot-trunc3"},
+		{"lin", "join-voter", "remove", "barrier", "snapshot-trunc3"},
+		{"write", "lin", "barrier", "snapshot-trunc1", "barrier"},
+	}
+	if caseNo%3 == 1 {
+		ops = append(ops, motifs[(caseNo/3)%len(motifs)]...)
+	}
 	return ops
 }
 
 func run(c *vf.Ctx) {
-	c.Rule("history = seeded sequence of 2-7 ops from {write, strong read, linearizable read, join voter/non-voter, remove, stepdown, barrier, user snapshot, noop, log truncation + snapshot install on a new voter + leadership transfer to it} on a fresh healthy in-process cluster (1 node, growing to at most 3), followed by 3 linearizable reads 50 ms apart over HTTP on the current leader with the default timeout and no write in between; thorough also probes after every prefix. non-trivial = history whose last committed entry before the reads is not a plain write; distinct by op sequence")
+	c.Rule("history = seeded sequence of 2-7 ops from {write, strong read, linearizable read, join voter/non-voter, remove, stepdown, barrier, user snapshot, user snapshot truncating the log to 1-2 trailing entries, noop, log truncation + snapshot install on a new voter + leadership transfer to it} on a fresh healthy in-process cluster (1 node, growing to at most 3), followed by 3 linearizable reads 50 ms apart over HTTP on the current leader with the default timeout and no write in between; thorough also probes after every prefix. non-trivial = history whose last committed entry before the reads is not a plain write; distinct by op sequence")
 	c.Assume("healthy network (faultnet with no faults); reads go to the node that reports itself leader")
 	c.Assume("a read failing with 'not leader' right after a stepdown is retried on the new leader (leadership moved, not a C38 failure)")
 	if c.ReplayFile != "" {
@@ -323,6 +336,14 @@ func runHistory(caseNo int, ops []string, dir string) (res histResult) {
 				!strings.Contains(err.Error(), "no WAL data available") {
 				return fail("snapshot: %v", err)
 			}
+		case "snapshot-trunc1", "snapshot-trunc2", "snapshot-trunc3":
+			// user snapshot that keeps only 1-3 trailing log entries (/snapshot?trailing_logs=n)
+			n := uint64(op[len(op)-1] - '0')
+			if err := l.Store.Snapshot(n); err != nil && !strings.Contains(err.Error(), "nothing new to snapshot") &&
+				!strings.Contains(err.Error(), "wait until the configuration entry") &&
+				!strings.Contains(err.Error(), "no WAL data available") {
+				return fail("snapshot-trunc: %v", err)
+			}
 		case "noop":
 			f, err := l.Store.Noop("c38")
 			if err != nil {
@@ -343,6 +364,7 @@ func runHistory(caseNo int, ops []string, dir string) (res histResult) {
 	}
 	res.Nodes = len(cl.Live())
 	res.LastKind = lastKind
+	retries := 0
 	for i := 0; i < 3; i++ {
 		l = cl.WaitLeader(10 * time.Second)
 		if l == nil {
@@ -368,10 +390,15 @@ func runHistory(caseNo int, ops []string, dir string) (res histResult) {
 				rd.Rows, _ = num.Int64()
 			}
 		}
-		if strings.Contains(rd.Err, "not leader") {
-			// leadership moved between WaitLeader and the read: retry, not a verdict
+		if strings.Contains(rd.Err, "not leader") || strings.Contains(rd.Err, "leader not found") || strings.Contains(rd.Err, "leadership transfer in progress") || strings.Contains(rd.Err, "leadership lost") {
+			// leadership moved (or is momentarily absent) between WaitLeader and the
+			// read: the property is about a node that is leader; retry, not a verdict
+			retries++
+			if retries > 40 {
+				return fail("no stable leader for the final reads")
+			}
 			i--
-			time.Sleep(100 * time.Millisecond)
+			time.Sleep(150 * time.Millisecond)
 			continue
 		}
 		res.Reads = append(res.Reads, rd)
